@@ -245,7 +245,7 @@ fn main() {
             } else if mode == "render" {
                 idl::run_render(&mut r, &asts, n, &mut stats);
             } else {
-                idl::run_parse(&mut r, &asts, n, num("--trunc", 0), num("--soup", 0), &mut stats);
+                idl::run_parse(&mut r, &asts, n, num("--trunc", 0), num("--soup", 0), num("--exhaustive-every", 0), &mut stats);
             }
             util::ev(json!({"ev":"end","id":"","text":""}));
             let lines = util::log_close();
